@@ -79,7 +79,9 @@ impl ConfirmHistory {
         };
 
         let len = end_tick - start_tick + 1; // +1 because the range is inclusive.
-        let range = (1 << len) - 1; // Shift 1 to `len` and then decrement to get `len` of 1's.
+        // Shift 1 to `len` and then decrement to get `len` of 1's.
+        // The range can cover the whole mask, in which case the shift would overflow.
+        let range = 1u64.checked_shl(len).map_or(u64::MAX, |bit| bit - 1);
         let offset = self.last_tick - end_tick;
         let mask = range << offset;
 
